@@ -105,3 +105,13 @@ chk("C08", "exhaustive small-scope selector enumeration under per-worker hash se
     "trusted: CPython 3.12, numpy, Hypothesis; the harness' reference selector (linear scans, re.fullmatch). Names avoid separators, regex "
     "metacharacters and case-only duplicates; shifts leaving the table are excluded and counted.", "DESIGN.md 4/C08",
     engine="hypothesis + enumeration + subprocess-differential")
+
+chk("C14", "stateful (pool-based) generated derivation scripts with a per-step structural invariant and before/after snapshots of the source",
+    "Generated scripts over a pool of tables (checked constructors with float / int / string / object / 2-D columns and scalar entries, "
+    "index 'name' or another column, 0..6 rows) applying rows[...], cols[...] (names and expressions), +, Table.concatenate, * k, _copy(), "
+    "_t, head / tail / reverse to any pool member (views of views, copies of copies) interleaved with in-place and new column assignments: "
+    "after every step every pool member must be rectangular (each listed column resolves with length len(table), index listed); around "
+    "every derivation a deep snapshot of the source must be unchanged, scalars must be carried over by row / column selections and the "
+    "derived content must be what the operation denotes; column expressions equal the element-wise numpy computation.",
+    "trusted: CPython 3.12, numpy, Hypothesis. Column lists name each column once; exceptions from a derivation are 'no table produced' "
+    "(counted). Bounded search: <= 12 pool members, <= 25 steps.", "DESIGN.md 4/C14")
